@@ -1,0 +1,44 @@
+//go:build verif
+
+package evm
+
+import (
+	"github.com/spf13/viper"
+
+	etypes "github.com/dappledger/AnnChain/eth/core/types"
+	"github.com/dappledger/AnnChain/eth/ethdb"
+	"github.com/dappledger/AnnChain/eth/params"
+	"github.com/dappledger/AnnChain/gemmill/modules/go-db"
+	gtypes "github.com/dappledger/AnnChain/gemmill/types"
+)
+
+// NewEVMAppVerif is NewEVMApp with the three databases injected instead of
+// opened as LevelDBs under db_dir (build tag "verif").
+func NewEVMAppVerif(config *viper.Viper, base db.DB, stateDb ethdb.Database, kvHistoryDb ethdb.Database) *EVMApp {
+	app := &EVMApp{
+		datadir:     config.GetString("db_dir"),
+		Config:      config,
+		chainConfig: params.MainnetChainConfig,
+		Signer:      new(etypes.HomesteadSigner),
+	}
+	app.AngineHooks = gtypes.Hooks{
+		OnNewRound: gtypes.NewHook(app.OnNewRound),
+		OnCommit:   gtypes.NewHook(app.OnCommit),
+		OnPrevote:  gtypes.NewHook(app.OnPrevote),
+		OnExecute:  gtypes.NewHook(app.OnExecute),
+	}
+	app.BaseApplication.Database = base
+	app.BaseApplication.InitializedState = true
+	app.stateDb = stateDb
+	app.keyValueHistoryManager = NewKeyValueHistoryManager(kvHistoryDb)
+	app.pool = NewEthTxPool(app, config)
+	return app
+}
+
+// VerifSetValidateRoutines sets the number of signature-verifier goroutines
+// (default runtime.NumCPU()) and returns the previous value.
+func VerifSetValidateRoutines(n int) int {
+	old := validateRoutineCount
+	validateRoutineCount = n
+	return old
+}
